@@ -280,7 +280,9 @@ def _consulted_slots(terms: List[Term], q: str, self_t: Term, slots: List[Slot])
                         got.update(_iter_slots(it, self_t))
             if isinstance(x, Loop):
                 calls_q = any(isinstance(y, Call) and call_name(y) == q and isinstance(call_recv(y), Sym) and call_recv(y).name.startswith('each:') for e in x.effects for y in walk(e)) or \
-                    any(isinstance(y, Call) and call_name(y) == q and isinstance(call_recv(y), Sym) and call_recv(y).name.startswith('each:') for p in x.paths for _, v in p[2] for y in walk(v))
+                    any(isinstance(y, Call) and call_name(y) == q and isinstance(call_recv(y), Sym) and call_recv(y).name.startswith('each:') for p in x.paths for _, v in p[2] for y in walk(v)) or \
+                    any(isinstance(y, Call) and call_name(y) == q and isinstance(call_recv(y), Sym) and call_recv(y).name.startswith('each:')
+                        for gs in [rg for rg, _ in x.returns] + [rg for rg, _ in x.raises] + [p[0] for p in x.paths] for g, _ in gs for y in walk(g))
                 if calls_q:
                     if _children_call(x.iter, self_t):
                         via_children = True
@@ -796,16 +798,27 @@ def _stack_walk_ok(lp: Loop, stack: Term, child_call: str) -> Optional[str]:
     if len(lp.paths) != 1:
         return 'traversal loop body is conditional'
     pg, flow, binds, effs = lp.paths[0]
-    pops = [c for c in method_calls([v for _, v in binds] + list(effs), 'pop') if call_recv(c) == stack]
+    pops = [c for c in method_calls([v for _, v in binds] + list(effs), 'pop') + method_calls([v for _, v in binds] + list(effs), 'popleft') if call_recv(c) == stack]
     if not pops:
         return 'no pop() from the work list'
+    sides = set()
     for p in pops:
-        if p.args and p.args[0] not in (Const(-1),):
-            return f'pops from position {p.args[0]!r}: breadth-first, not parents-before-children left-to-right'
+        if call_name(p) == 'popleft' or (p.args and p.args[0] == Const(0)):
+            sides.add('left')
+        elif not p.args or p.args[0] == Const(-1):
+            sides.add('right')
+        else:
+            return f'pops from position {p.args[0]!r}: not parents-before-children left-to-right'
+    if len(sides) != 1:
+        return 'the work list is popped from both ends'
+    side = sides.pop()
     node = pops[0]
-    ext = [c for c in method_calls(effs, 'extend') if call_recv(c) == stack]
+    ext = [c for c in method_calls(effs, 'extend') + method_calls(effs, 'extendleft') if call_recv(c) == stack]
     if len(ext) != 1:
         return 'children are not pushed exactly once with extend()'
+    # the next node to visit must be the first child: push on the side that is popped, first child outermost
+    if (side == 'right') != (call_name(ext[0]) == 'extend'):
+        return f'nodes are taken from the {side} end but children are pushed with {call_name(ext[0])}(): breadth-first, not parents-before-children'
     arg = ext[0].args[0] if ext[0].args else None
     if not (isinstance(arg, Call) and isinstance(arg.func, Ext) and arg.func.name == 'reversed'):
         return 'children are pushed without reversed(): siblings would be visited right-to-left'
@@ -846,7 +859,10 @@ def _preorder_ok(outs: List[Outcome], self_t: Term, child_call: str, rec: str) -
     ys = [e for e in effs if isinstance(e, Op) and e.op in ('yield', 'yield from')]
     if len(loops) == 1 and not ys and loops[0].target == '<while>':
         lp = loops[0]
-        if not (isinstance(lp.iter, TupleT) and lp.iter.items == (self_t,)):
+        start = lp.iter
+        if isinstance(start, Call) and isinstance(start.func, Ext) and start.func.name.endswith('deque') and len(start.args) == 1 and not start.kwargs:
+            start = start.args[0]
+        if not (isinstance(start, TupleT) and start.items == (self_t,)):
             return f'work list does not start as [self]: {lp.iter!r}'
         return _stack_walk_ok(lp, lp.iter, child_call)
     # recursive idiom: yield self, then for c in self.children(): yield from c.iterate()
@@ -990,6 +1006,70 @@ RULES = {'S1': S1, 'S2': S2, 'S3': S3, 'S4': S4, 'S5': S5, 'S6': S6, 'S7': S7, '
 
 
 # ------------------------------------------------------------- own-field check
+S9_NEED = {'is_accessor': True, 'is_indexed': False, 'is_value': True, 'is_this_msg': True}
+
+
+def _s9_any_form(ctx: Ctx, r: RuleResult, fi: FunctionInfo, outs: List[Outcome], table: Term) -> bool:
+    """the search written as `if not any(pred(group[0]) for group in table.values()): raise`"""
+    from .terms import flat_guards, FuncRef
+    raises = [o for o in outs if o.kind == 'raise' and 'HplSanityError' in repr(o.value)]
+    if len(raises) != 1:
+        return False
+    gs = [(t, p) for t, p in norm_guards(raises[0].guards)]
+    if len(gs) != 1:
+        return False
+    t, pol = gs[0]
+    if not (isinstance(t, Call) and isinstance(t.func, Ext) and t.func.name == 'any' and not pol and t.args and isinstance(t.args[0], Comp) and len(t.args[0].gens) == 1):
+        return False
+    comp = t.args[0]
+    tgt, it, ifs = comp.gens[0]
+    each = Sym(f'each:{tgt}')
+    if not (isinstance(it, Call) and call_name(it) in ('values',) and call_recv(it) == table):
+        r.fail('_some_field_refs:groups', f'the search does not range over all reference groups of the table: {it!r}', fi.where)
+        return True
+    for c in ifs:
+        if c != each:
+            r.fail('_some_field_refs:groups', f'reference groups are filtered by {c!r} before the search', fi.where)
+    # the tested element must be a member of the group (all members of a group print alike)
+    elt = comp.elt
+    member = None
+    for x in walk(elt):
+        if isinstance(x, Sub) and x.base == each:
+            member = x
+    if member is None:
+        return False
+    r.ok('HplSanityError after the search')
+    r.ok('any() over every reference group: no early abort')
+    # acceptance predicate
+    accept_paths: List[Tuple] = []
+    if isinstance(elt, Call) and isinstance(elt.func, FuncRef) and elt.args == (member,):
+        pf = ctx.ev.callee(elt.func)
+        ref = Sym('ref', 'HplExpression')
+        for o in ctx.ev.run(pf, {pf.params()[0]: ref}):
+            if o.kind != 'return':
+                continue
+            if o.value == Const(False):
+                continue
+            g2 = tuple(o.guards) + (() if o.value == Const(True) else ((o.value, True),))
+            accept_paths.append(flat_guards(g2))
+    else:
+        accept_paths.append(flat_guards(((elt, True),)))
+    ok = bool(accept_paths)
+    for gs2 in accept_paths:
+        got = {}
+        for t2, p2 in gs2:
+            if isinstance(t2, Attr) and t2.name in S9_NEED:
+                got[t2.name] = p2
+        if not all(got.get(k) == v for k, v in S9_NEED.items()):
+            ok = False
+            r.fail('_some_field_refs:accept', f'accepts under [{guards_repr(gs2)[:120]}]: not exactly "accessor, not indexed, object is the current message"', fi.where)
+    if ok:
+        r.ok('accepts exactly a direct field of the current message')
+    elif not accept_paths:
+        r.fail('_some_field_refs:no-accept', 'no accepting path for a direct field of the current message', fi.where)
+    return True
+
+
 def S9(ctx: Ctx) -> RuleResult:
     r = RuleResult('S9', 'own-field check: _some_field_refs searches EVERY reference group (no early abort of the outer search), accepts exactly a direct field of the current message, and raises HplSanityError after the search')
     c = ctx.model.cls('HplPredicateExpression', 'S9')
@@ -999,6 +1079,8 @@ def S9(ctx: Ctx) -> RuleResult:
     self_t = Sym('self', c.name)
     table = Sym('table')
     outs = ctx.ev.run(fi, {'self': self_t, 'table': table})
+    if _s9_any_form(ctx, r, fi, outs, table):
+        return r
     rets = [o for o in outs if o.kind in ('return', 'fall')]
     raises = [o for o in outs if o.kind == 'raise']
     if not raises or not all('HplSanityError' in repr(o.value) for o in raises):
